@@ -281,7 +281,7 @@ func (t *c07Tuple) rowsTerm(total int64, rows map[string][2]int64, err error) Te
 	}
 	var out []Term
 	n := 0
-	for _, f := range t.tab.funcs {
+	for _, f := range t.funcOrder() {
 		if v, ok := rows[f]; ok {
 			n++
 			out = append(out, L(S(f), Z(v[0]), Z(v[1])))
@@ -665,6 +665,23 @@ func runC07E2E(c *Ctx, emit func(gen string, in, obs Term, nt bool, tags ...stri
 				e.srcNames = append([]string{e.srcNames[0]}, e.srcNames...)
 			}
 			run("e2e-"+sh.name, e)
+		}
+	}
+	// (1b) profiles of different builds (round 5 shapes) through the three entry points
+	e2eBuilds := map[string]bool{"moved-code-sum": true, "moved-code-base": true, "shifted-start-diff-base": true, "inline-vs-plain-base": true}
+	for _, kind := range kinds {
+		for _, sh := range c07BuildsShapes() {
+			if !e2eBuilds[sh.name] {
+				continue
+			}
+			e := &c07E2E{kind: kind, t: sh.t}
+			for i := range sh.t.srcs {
+				e.srcNames = append(e.srcNames, []string{"build-new.prof", "build-old.prof", "b3.prof"}[i])
+			}
+			for i := range sh.t.bases {
+				e.baseNames = append(e.baseNames, []string{"base-old.prof", "base2.prof"}[i])
+			}
+			run("e2e-builds-"+sh.name, e)
 		}
 	}
 	// (2) random tuples x random names x the three entry points
